@@ -15,6 +15,7 @@ def step(prop, name, menu, aday, dday, startup, daily, compress, ops=1, tiers=('
     if compress:
         up.update({'calculateCRC32ER5QFile\\.[01]$': 2100, 'calculateCRC32ER5QFile\\.[2-9]$': 14})
     j = dict(name=name, src='../FS/fs.cpp', fn='h_fs_step', defines=d, unwind=50, unwind_patterns=up, timeout=timeout, mem=mem, real_wrap_clock=True, tiers=list(tiers), cbmc_extra=['--slice-formula'])
+    j['mem_est'] = 26 if (compress or menu >= 3) else (22 if ops > 1 else 15)
     if compress or menu >= 3:
         j['cbmc_extra'] = ['--slice-formula', '--max-field-sensitivity-array-size', '256']
     if replay:
